@@ -183,6 +183,10 @@ impl MagicSetRewriter {
             }
         }
 
+        // The rewrite replaces the rules of an adorned relation by a version restricted to the
+        // query's constants, so it is only sound when nothing else needs the whole relation.
+        result.retain(|relation, binding| references_are_restricted(program, relation, binding));
+
         result
     }
 
@@ -306,6 +310,48 @@ fn compute_invariant_positions(
     }
 
     result
+}
+
+/// True when every reference to `relation` outside its own rules is a positive `__query__`
+/// atom whose arguments at the bound positions are variables equated to exactly the bound
+/// constants. Any other reference (a view over the relation, a second query atom with other
+/// arguments, a negated atom) needs tuples that the restricted relation does not contain.
+fn references_are_restricted(program: &Program, relation: &str, binding: &QueryBinding) -> bool {
+    for rule in &program.rules {
+        if rule.head.relation == relation {
+            continue;
+        }
+        let is_query = rule.head.relation == "__query__";
+        let mut var_to_constant: HashMap<&String, &Term> = HashMap::new();
+        for pred in &rule.body {
+            if let BodyPredicate::Comparison(left, ComparisonOp::Equal, right) = pred {
+                match (left, right) {
+                    (Term::Variable(v), c) | (c, Term::Variable(v)) if is_ground(c) => {
+                        var_to_constant.insert(v, c);
+                    }
+                    _ => {}
+                }
+            }
+        }
+        for pred in &rule.body {
+            match pred {
+                BodyPredicate::Positive(atom) if atom.relation == relation => {
+                    if !is_query {
+                        return false;
+                    }
+                    for (pos, constant) in &binding.bound_constants {
+                        match atom.args.get(*pos) {
+                            Some(Term::Variable(v)) if var_to_constant.get(v) == Some(&constant) => {}
+                            _ => return false,
+                        }
+                    }
+                }
+                BodyPredicate::Negated(atom) if atom.relation == relation => return false,
+                _ => {}
+            }
+        }
+    }
+    true
 }
 
 /// Check if a term is a ground (constant) term
